@@ -109,7 +109,10 @@ assumed("self._run_pre_change_branch_tip_hooks", result=NONE, note="hooks may ve
 assumed("self._run_post_change_branch_tip_hooks", result=NONE)
 assumed("self._clear_cached_state", result=NONE, modifies=["self._last_revision_info_cache"], no_raise=True)
 assumed("self.repository.get_graph", pure=True, raises={"Exception": None})
-assumed("graph.iter_lefthand_ancestry", pure=True, returns=lambda c: LHof(c.args[0]))
+exceptions(RevisionNotPresent="Exception")
+assumed("graph.iter_lefthand_ancestry", pure=True, returns=lambda c: LHof(c.args[0]),
+        raises={"RevisionNotPresent": None, "Exception": None},
+        note="walking the left-hand ancestry fails with RevisionNotPresent when it meets a ghost")
 
 
 def append_ok(old_tip, new_rev):
@@ -150,3 +153,24 @@ census("_write_last_revision_info", ["breezy/bzr/branch.py"],
        "the on-disk tip of a bzr branch is written only by the guarded setter (and by the format converter initialising a NEW branch)")
 
 undecided("remote (smart server) and git branches; bound-branch master updates during pull/push; fetch itself (C03)")
+
+# ---- the callers of _update_revisions: only the 'history' overwrite flag may waive the descendant check
+OW = ufunc("OverwriteSet", Seq(STR))
+assumed("_fix_overwrite_type", pure=True, returns=lambda c: OW(),
+        note="normalises True/False/iterable to the list of things to overwrite ('history', 'tags')")
+UPD = verified("self._update_revisions", params=["stop_revision", "overwrite", "graph"], result=NONE, modifies=["g.tip"],
+               # the flag handed down is exactly "'history' is to be overwritten" (a bool), never the whole collection
+               requires=lambda c: lift(c.overwrite.s == BOOL) & (c.overwrite == In("history", OW()) if c.overwrite.s == BOOL else FALSE),
+               ensures=lambda c: Or(c.g.tip == c.old.g.tip, truthy(c.overwrite),
+                                    And(Desc(c.g.tip[1], c.old.g.tip[1]), c.g.tip[1] != c.old.g.tip[1])),
+               raises={"Exception": "unchanged"})
+for _name, _loops in (("_basic_push", {}), ("_pull", {1: loop(r"for hook in Branch\.hooks\[", lambda c: c.g.tip == c.pre.g.tip)})):
+    target("breezy/branch.py::GenericInterBranch." + _name, loops=_loops,
+           requires=lambda c: forall([REV, REV], lambda a, b: order(a, b)),
+           ensures={"history_is_overwritten_only_on_request": lambda c: Or(
+               c.g.tip == c.old.g.tip, In("history", OW()),
+               And(Desc(c.g.tip[1], c.old.g.tip[1]), c.g.tip[1] != c.old.g.tip[1]))},
+           raises={"Exception": lambda c: Or(c.g.tip == c.old.g.tip, In("history", OW()),
+                                             And(Desc(c.g.tip[1], c.old.g.tip[1]), c.g.tip[1] != c.old.g.tip[1]))},
+           equivalent_mutants={r".": "only the hand-over of the overwrite flag to _update_revisions is under contract for this caller"},
+           note="caller contract: tags/hooks/result bookkeeping are assumed not to move the tip")
